@@ -239,25 +239,21 @@ func checkC02(c *Ctx, r *Report) {
 			label := exitLabel(p)
 			rsp := p.Resolve(ret.Results[0])
 			okTag, okStatus, okErr := false, false, false
-			for _, ifi := range ifsOf(fn) {
-				if _, on := p.Took(ifi); !on {
+			for _, rel := range p.relations() {
+				if rel.Op != token.EQL {
 					continue
 				}
-				op, x, y, _, isBin := condOf(ifi.Cond)
-				if !isBin || (op != token.EQL && op != token.NEQ) {
-					continue
-				}
-				for _, pr := range [][2]ssa.Value{{x, y}, {y, x}} {
-					if fieldLoadOf(pr[0], rsp, "Tag") && fieldLoadOf(pr[1], req, "Tag") && tookEqualArm(p, ifi) {
+				for _, pr := range [][2]ssa.Value{{rel.X, rel.Y}, {rel.Y, rel.X}} {
+					if p.loadOfField(pr[0], rsp, "Tag") && p.loadOfField(pr[1], req, "Tag") {
 						okTag = true
 					}
-					if fieldLoadOf(pr[0], rsp, "Status") {
-						if kk, isK := constInt(pr[1]); isK && kk == 0 && tookEqualArm(p, ifi) {
+					if p.loadOfField(pr[0], rsp, "Status") {
+						if kk, isK := constInt(p.Resolve(pr[1])); isK && kk == 0 {
 							okStatus = true
 						}
 					}
 					if isNilConst(pr[1]) {
-						if call, isCall := pr[0].(*ssa.Call); isCall && tookEqualArm(p, ifi) {
+						if call, isCall := pr[0].(*ssa.Call); isCall {
 							if f := call.Call.StaticCallee(); f != nil && c.reachesSend(f) {
 								okErr = true
 							}
